@@ -332,7 +332,7 @@ def build(run):
     verify_alias(run)
     verify_binding(run)
     verify_statics(run)
-    b = 200 if run.tier == "quick" else 2000
+    b = 800 if run.tier == "quick" else 6000
     known = [c for c, _ in KNOWN.values()]
     run.bounded("exporter.PythonExporter+library.Representation/exec_eval_round_trip.runtime", N_, "replay_python_roundtrip", [dict(seed=run.seed, budget=b, skip_classes=NOT_DEMANDED + known)],
                 bound=f"{b // 5} generated engines (arbitrary finite doubles, inf/NaN, quotes in descriptions, weights on the decimals grid; every 4th imported from FLL) x aliases fl / '' / * / fuzzy x repr / encapsulated / formatted; every component class x parameter variants x 4 aliases x repr / create(): exec of the import statement, eval/exec of the export, equal repr, equal FLL export, bit-identical outputs")
